@@ -8,7 +8,9 @@ IsEvent(e) == l <= Len(Rec) /\ Rec[l].e = e /\ l' = l + 1
 TInit == QInit /\ l = 1
 TrReset == IsEvent("reset") /\ Start([names |-> R.names, types |-> R.types, lens |-> R.lens, ev |-> R.ev])
 \* (flagok: every option-controlled statistic - unconstrained_draw, gradient, transformed_position, transformed_gradient -
-\* is present exactly when its own store_* option is set; computed harness-side from the settings of the run)
+\* is present exactly when its own store_* option is set, and the `diverging` statistic equals the divergence flag of
+\* the draw's Progress, which is also what decides whether the divergence event fields must be there;
+\* computed harness-side)
 TrDraw == IsEvent("draw") /\ R.flagok /\ Draw(R.st, R.diverging, R.changed, R.counter, R.chain)
 TNext == TrReset \/ TrDraw
 TSpec == TInit /\ [][TNext]_tvars
